@@ -177,11 +177,14 @@ def c13_forms(split, k):
     return len(targets.LOG) == 1 and list(targets.LOG[0][1]) == exp_pos and targets.LOG[0][2] == ()
 
 
-def c13_merge(split, dp, d, dp3, d3):
+def c13_merge(split, dp, d, dp3, d3, fa=False):
     """merge table: stage 2 (and 3) merged onto `c: !call:f {a: 1, b: 2}`"""
     reset()
-    base = 'c: !call:engine.targets.f {a: 1, b: 2}\n'
     kind = split['kind']
+    if fa and kind not in ('fn_other', 'str_other'):
+        return True      # an old argument with priority over the incoming node: claimed only where the target changes
+    fa = bool(fa)
+    base = 'c: !call:engine.targets.f {a: %s1, b: 2}\n' % ('!force ' if fa else '')
     flags = {}
     if dp:
         flags['delete'] = d
@@ -213,7 +216,7 @@ def c13_merge(split, dp, d, dp3, d3):
     elif kind == 'fn_other':
         s2 = 'c: %s {b: 5, c: 6}\n' % fn_tag('g', flags, 's2')
         exp_t = 'g'
-        exp_args = {'a': 1, 'b': 5, 'c': 6} if eff_del is False else {'b': 5, 'c': 6}
+        exp_args = {'a': 1, 'b': 5, 'c': 6} if eff_del is False else {'b': 5, 'c': 6}      # old arguments go, forced or not
     docs = [base, s2]
     if split.get('third'):
         fl3 = {'delete': d3} if dp3 else {}
@@ -221,7 +224,11 @@ def c13_merge(split, dp, d, dp3, d3):
         if t3 == 'map':
             docs.append('c: %s {a: 9}\n' % site('s3', fl3))
             if dp3 and d3:
+                if fa and 'a' in exp_args:
+                    return True      # deleting a node that holds a surviving forced entry: C04's subject, not claimed here
                 exp_args = {'a': 9}
+            elif fa and 'a' in exp_args:
+                pass             # the surviving forced argument keeps its value
             else:
                 exp_args = dict(exp_args, a=9)
         elif t3 == 'str_other':
@@ -276,6 +283,6 @@ HARNESSES = {
     'c13_forms': Harness('c13_forms', c13_forms, [('k', 'int', 0, 5)],
                          lambda tier: [{'mode': m, 'simple': s} for m in ('call', 'bind') for s in (False, True)],
                          doc='list / scalar / empty argument forms', witnesses=('called',)),
-    'c13_merge': Harness('c13_merge', c13_merge, [('dp', 'bool'), ('d', 'bool'), ('dp3', 'bool'), ('d3', 'bool')], _splits_merge,
-                         doc='merge table of function nodes with symbolic delete flags, 2..3 stages', witnesses=('called',)),
+    'c13_merge': Harness('c13_merge', c13_merge, [('dp', 'bool'), ('d', 'bool'), ('dp3', 'bool'), ('d3', 'bool'), ('fa', 'bool')], _splits_merge,
+                         doc='merge table of function nodes with symbolic delete flags and an optionally forced old argument, 2..3 stages', witnesses=('called',)),
 }
